@@ -32,6 +32,16 @@ pub(crate) struct DotLookup<'a> {
 #[derive(Debug)]
 pub(crate) struct DotChain {
     links: Vec<DotLookupOption>,
+    /// One of the links names a member of a MODULE (`module.member`). Such a member can be read from
+    /// outside, but only the module itself writes to it or through it -- whatever name the module is
+    /// reached by (`import lib`, or a copy like `m = lib`).
+    goes_through_module: bool,
+}
+
+impl DotChain {
+    pub(crate) fn goes_through_module(&self) -> bool {
+        self.goes_through_module
+    }
 }
 
 impl Dependencies for DotChain {
@@ -116,9 +126,15 @@ impl Parser {
     ) -> Result<(DotChain, Cow<'a, TypeLayout>), Vec<anyhow::Error>> {
         let mut links = vec![];
         let mut must_call = false;
+        let mut goes_through_module = false;
 
         for dot_chain_option_node in input.children() {
             must_call = true;
+
+            goes_through_module |= matches!(
+                lhs_ty.disregard_distractors(true),
+                TypeLayout::Module(..)
+            );
 
             let dot_chain_option = Self::dot_chain_option(dot_chain_option_node, lhs_ty)?;
 
@@ -149,7 +165,13 @@ impl Parser {
             )]);
         }
 
-        Ok((DotChain { links }, lhs_ty))
+        Ok((
+            DotChain {
+                links,
+                goes_through_module,
+            },
+            lhs_ty,
+        ))
     }
 
     pub fn dot_chain_option<'a>(
